@@ -98,6 +98,9 @@ def named_schedules(seed):
         return d
     F = lambda ep, kind, seq, tx, fate, **kw: dict({"ep": ep, "kind": kind, "s": -1, "seq": seq, "tx": tx, "fate": fate}, **kw)
     out = [
+        # a one-way upload that lasts longer than the 60 s idle timeout: the uploader receives nothing but acks and heartbeats
+        sc("one-way-trickle-for-80-s", [], c=[["w", 1000], ["sleep", 5000]] * 16 + [["w", 7]], s=[["rn", 16007]], limit=900),
+        sc("one-way-trickle-download-for-80-s", [], c=[["w", 1], ["rn", 16000]], s=[["rn", 1]] + [["w", 1000], ["sleep", 5000]] * 16, limit=900),
         sc("lose-open-response", [F("S", "openresp", 0, 1, "drop")]),
         sc("lose-open-response-twice", [F("S", "openresp", 0, 1, "drop"), F("S", "openresp", 0, 2, "drop")]),
         sc("lose-open-request-twice", [F("C", "open", 0, 1, "drop"), F("C", "open", 0, 2, "drop")]),
